@@ -123,11 +123,13 @@ func runC38(c *Ctx) {
 				}
 			}
 			var got bool
+			impure := ""
 			func() {
 				defer func() {
 					if r := recover(); r != nil {
 						if u, ok := r.(evalUndecided); ok {
-							c.Failf("BoundedReceive checker not evaluable: %s", u.msg)
+							impure = u.msg
+							return
 						}
 						panic(r)
 					}
@@ -135,6 +137,10 @@ func runC38(c *Ctx) {
 				ret := env.block(lit.Body.List)
 				got, _ = ret.vals[0].(bool)
 			}()
+			if impure != "" {
+				c.Ob("bound", "BoundedReceive#decision-is-a-pure-comparison-of-size-and-bound", lit.Pos(), false, "the accept decision is a function of the announced size and the caller's bound alone; it also depends on: "+impure)
+				break
+			}
 			want := size.Cmp(mx) <= 0
 			n++
 			c.Ob("bound", fmt.Sprintf("BoundedReceive#ordertype(size,max)=%v", ord), lit.Pos(), got == want, fmt.Sprintf("size=%v max=%v: accepted=%v, must be %v (accept exactly size <= max)", size, mx, got, want))
